@@ -73,11 +73,7 @@ class Config(object):
 
     def flags(self):
         f = [self.cxx, '-std=' + self.std, self.opt]
-        if self.cxx.startswith('g++'):
-            f.append('-frounding-math')
-        else:
-            f.append('-ffp-model=strict') if False else None
-        f = [x for x in f if x]
+        f.append('-frounding-math')
         f += ['-DAVEL_' + m for m in self.macros]
         for m in sorted(self.closed):
             if m in FLAG and m != 'PREFETCH':
